@@ -105,13 +105,14 @@ struct Case
   int opt = 0, nbsimu = 1, nbtuba = 8, simseed = 1;
   int inExtra = 0, outExtra = 0, inRoles = 0, outRoles = 0, inSel = 0, outSel = 0, collide = 0;
   int mode = 0;
+  int hist = 0;                    // earlier life of the data bases: bit 0 / 1 = a scratch variable was created and deleted in dbin / dbout
   template<class A> void io(A& a)
   {
     a("calc", calc)("ndim", ndim)("nin", nin)("nvar", nvar)("nfex", nfex)("fexInDbin", fexInDbin)("inGrid", inGrid)
       ("outGrid", outGrid)("ntgt", ntgt)("nx", nx)("cells", cells)("tcells", tcells)("vseed", vseed)("naPct", naPct)
       ("neigh", neigh)("nmaxi", nmaxi)("nsect", nsect)("cov", cov)("drift", drift)("opt", opt)("nbsimu", nbsimu)
       ("nbtuba", nbtuba)("simseed", simseed)("inExtra", inExtra)("outExtra", outExtra)("inRoles", inRoles)
-      ("outRoles", outRoles)("inSel", inSel)("outSel", outSel)("collide", collide)("mode", mode);
+      ("outRoles", outRoles)("inSel", inSel)("outSel", outSel)("collide", collide)("mode", mode)("hist", hist);
   }
 };
 
@@ -156,6 +157,7 @@ static Case genCase()
   c.outSel = G::pct(40) ? G::i(1, 99) : 0;
   c.collide = G::pct(50) ? G::i(1, 255) : 0;
   c.mode = G::i(0, 63);
+  c.hist = G::pct(50) ? G::i(1, 3) : 0;
   return c;
 }
 
@@ -614,6 +616,14 @@ static Objs build(const Case& c, const Plan& p, int mode)
       (void)o.pca->pca_compute(tmp.get(), false);
     }
   }
+  // ---- earlier life of the data bases: a scratch variable was created and deleted (user identifiers and column ranks differ afterwards)
+  auto scratch = [](Db* db) {
+    if (db == nullptr) return;
+    int uid = db->addColumnsByConstant(1, 0., "verif_scratch");
+    if (uid >= 0) db->deleteColumnByUID(uid);
+  };
+  if (c.hist & 1) scratch(o.in.get());
+  if (c.hist & 2) scratch(o.out.get());
   return o;
 }
 
@@ -1008,7 +1018,7 @@ static void runNatural(const Case& c, Ctx& ctx)
   Plan p = makePlan(c);
   std::string cn = kCalcName[p.calc];
   std::vector<int> modes = applicableModes(p);
-  ctx.label("calc:" + cn);
+  ctx.label("calc:" + cn); ctx.label(c.hist ? "db-history:column-deleted-before" : "db-history:fresh");
   if (modes.empty()) { ctx.label("no-mode"); return; }
   int mode = modes[(size_t)(((c.mode % (int)modes.size()) + (int)modes.size()) % (int)modes.size())];
   std::string prefix = cn + ":" + kModeName[mode];
@@ -1047,7 +1057,7 @@ static void runInject(const Case& c, Ctx& ctx)
   Guard g; Sink sk(ctx);
   Plan p = makePlan(c);
   std::string cn = kCalcName[p.calc];
-  ctx.label("calc:" + cn); ctx.at(cn + ":unfaulted");
+  ctx.label("calc:" + cn); ctx.at(cn + ":unfaulted"); ctx.label(c.hist ? "db-history:column-deleted-before" : "db-history:fresh");
   Ref ref;
   computeRef(c, p, ref);
   if (ref.ret != 0) { ctx.label("valid-rejected:" + cn); return; }
